@@ -356,6 +356,8 @@ func sameSlice(a, b []byte) bool { panic("spec") }
 func oldbyte(s []byte, i int) byte { panic("spec") }
 // fresharr(s): the backing array of s did not exist on entry to the function.
 func fresharr(s []byte) bool { panic("spec") }
+// freshobj(p): the object p points to did not exist on entry to the function.
+func freshobj(p interface{}) bool { panic("spec") }
 // bytesUnchangedExcept(s, lo, hi): every byte of every array that existed on entry is unchanged,
 // except possibly s[lo:hi].
 func bytesUnchangedExcept(s []byte, lo, hi int) bool { panic("spec") }
@@ -679,7 +681,7 @@ func (ld *Loaded) genStubOnce(lp *LPkg, skip map[string]string, cur *string) (st
 		}
 		lp.Units[fc.Key] = u
 		_, pd := u.sigParams(qual, false)
-		if ifaceT != nil {
+		if ifaceT != nil && !(len(pd) > 0 && strings.HasPrefix(pd[0], "_vcrecv ")) {
 			// interface method contract: receiver is the interface value
 			pd = append([]string{"_vcrecv " + types.TypeString(ifaceT, qual)}, pd...)
 		}
@@ -732,7 +734,7 @@ func (ld *Loaded) genStubOnce(lp *LPkg, skip map[string]string, cur *string) (st
 		}
 		if len(fc.Ensures)+len(fc.Assumes) > 0 {
 			_, pdr := u.sigParams(qual, true)
-			if ifaceT != nil {
+			if ifaceT != nil && !(len(pdr) > 0 && strings.HasPrefix(pdr[0], "_vcrecv ")) {
 				pdr = append([]string{"_vcrecv " + types.TypeString(ifaceT, qual)}, pdr...)
 			}
 			for i := range pdr {
